@@ -525,6 +525,14 @@ def translate(repo):
                     if len(xv) == 1 and xv[0].startswith('"') and unq(xv[0]) in DTYPES and unq(xv[0]) != "MT":
                         if unq(xv[0]) not in alloc:
                             alloc.append(unq(xv[0]))
+    # readers that compute the zone-wide data size of a node (cgi_datasize: fails for a location it does not know) before they
+    # look for the node's point set, i.e. also for a node that has one
+    dsfirst = []
+    for fname in sorted(funs):
+        f = funs[fname]
+        names = [f.toks[k][1] for k in range(f.b0, f.b1)]
+        if "cgi_datasize" in names and "cgi_read_one_ptset" in names and names.index("cgi_datasize") < names.index("cgi_read_one_ptset"):
+            dsfirst.append(fname)
     text = ("(* GENERATED on every run by translators/c01_templates.py from the current src/cgnslib.c, src/cgns_internals.c,\n"
             "   src/cgns_header.h and src/cgnslib.h.  Never edit, never commit. *)\n"
             "From Coq Require Import ZArith List.\nFrom Coq Require String.\nImport String.StringSyntax.\nFrom CgnsV Require Import TreeDB SidsRows.\nImport ListNotations.\n"
@@ -535,13 +543,15 @@ def translate(repo):
             "Definition gen_version_bytes : bytes := [%s].\n"
             "Definition gen_nof_element_types : Z := %d.\n"
             "Definition gen_read_node_allocates : list bytes := [%s].\n"
+            "Definition gen_datasize_before_ptset : list bytes := [%s].\n"
             % (";\n".join(wl), ";\n".join(rl), ";\n".join(el), "; ".join(str(b) for b in vb), nel,
-               "; ".join(cs(a) for a in alloc)))
+               "; ".join(cs(a) for a in alloc), "; ".join(cs(a) for a in dsfirst)))
     info = dict(stats)
     info["files"] = ["src/cgnslib.c", "src/cgns_internals.c", "src/cgns_header.h", "src/cgnslib.h"]
     info["enum_tables"] = len(et)
     info["unparsed_list"] = unparsed[:40]
     info["read_node_allocates"] = alloc
+    info["datasize_before_ptset"] = dsfirst
     info["unreachable_functions_with_templates"] = dead
     return text, info
 
